@@ -275,3 +275,157 @@ def top_fn(F, fn):
     while cur.kind == "closure":
         cur = F.fn(cur.d["parent"])
     return cur
+
+
+# ------------------------------------------------------------------------------------------
+# path helpers
+
+
+def is_callee(t, *names):
+    """does the call terminator's callee (generic def path or resolved path) equal / end with one of names"""
+    c = t.get("callee", {})
+    if "indirect" in c:
+        return False
+    for cand in (c.get("def"), c.get("resolved")):
+        if not cand:
+            continue
+        for n in names:
+            if cand == n or cand.endswith("::" + n) or cand.endswith(n):
+                return True
+    return False
+
+
+def error_exit_blocks(fn):
+    """blocks that produce an error return: the residual of a `?`, or an explicit `_0 = Err(..)`"""
+    out = {bi for bi, t in fn.calls() if (callee_def(t) or "") == "std::ops::FromResidual::from_residual"}
+    for bi, si, s in fn.assigns():
+        a = s["rv"].get("agg")
+        if s["pl"]["l"] == 0 and not s["pl"]["p"] and isinstance(a, dict) and a.get("adt") == "std::result::Result" and a.get("variant") == "Err":
+            out.add(bi)
+    return out
+
+
+def path_to_return_avoiding(fn, avoid, start=0, through_errors=False):
+    """is there a path start -> return that avoids the blocks in `avoid` (and, by default, error exits)?"""
+    blocked = set(avoid)
+    if not through_errors:
+        blocked |= error_exit_blocks(fn)
+    rets = set(fn.return_blocks())
+    seen = set()
+    st = [start]
+    while st:
+        b = st.pop()
+        if b in seen or b in blocked:
+            continue
+        seen.add(b)
+        if b in rets:
+            return True
+        st.extend(fn.succs()[b])
+    return False
+
+
+def exactly_once_on_normal_paths(fn, sites):
+    """(ok, reason): every non-error path entry -> return passes exactly one of `sites`"""
+    sites = set(sites)
+    if not sites:
+        return False, "no such call"
+    if path_to_return_avoiding(fn, sites):
+        return False, "a non-error path reaches the return without it"
+    for s in sites:
+        again = fn.reachable_from_succs(s) & sites
+        if again:
+            return False, "it can run more than once on one path (bb%d -> bb%d)" % (s, sorted(again)[0])
+    return True, ""
+
+
+def find_method(F, trait, name, self_adt):
+    """def path of the method `name` of `trait` as implemented for the ADT self_adt (impl override), else None"""
+    for imp in F.impls:
+        if imp.get("trait") != trait:
+            continue
+        st = F.ty(imp["self_ty"])
+        if st.kind() == "adt" and st.adt() == self_adt:
+            for m in imp["methods"]:
+                if m["name"] == name:
+                    return F.fn(m["def"])
+    return None
+
+
+def inherent_methods(F, self_adt):
+    out = {}
+    for imp in F.impls:
+        if imp.get("trait"):
+            continue
+        st = F.ty(imp["self_ty"])
+        if st.kind() == "adt" and st.adt() == self_adt:
+            for m in imp["methods"]:
+                fn = F.fn(m["def"])
+                if fn is not None:
+                    out[m["name"]] = fn
+    return out
+
+
+def flows_into(fn, src_bb, operand, depth=0, seen=None):
+    """does the result of the call at src_bb flow (through moves, aggregates and other calls' arguments) into operand?"""
+    from ..flow import origins
+    seen = seen if seen is not None else set()
+    for d, _ in origins(fn, operand):
+        if d[0] == "call":
+            if d[1] == src_bb:
+                return True
+            if d[1] in seen or depth > 16:
+                continue
+            seen.add(d[1])
+            for a in fn.term(d[1])["args"]:
+                if flows_into(fn, src_bb, a, depth + 1, seen):
+                    return True
+        elif d[0] == "agg":
+            st = fn.stmts(d[1])[d[2]]
+            for o in st["rv"]["ops"]:
+                if flows_into(fn, src_bb, o, depth + 1, seen):
+                    return True
+    return False
+
+
+def const_of(o):
+    c = o.get("const") if isinstance(o, dict) else None
+    return c
+
+
+def depth_dataflow(fn, pushes, pops):
+    """PAIR: forward dataflow of the scope depth {0,1,2,..} over the normal-flow CFG; error exits end a path.
+    Returns (depth_in: {bb: set}, problems: [text])"""
+    pushes, pops = set(pushes), set(pops)
+    err = error_exit_blocks(fn)
+    depth_in = {0: {0}}
+    work = [0]
+    problems = []
+    guard = 0
+    while work and guard < 10000:
+        guard += 1
+        b = work.pop()
+        if b in err:
+            continue
+        out = set()
+        for d in depth_in[b]:
+            if b in pushes:
+                d += 1
+            if b in pops:
+                d -= 1
+            out.add(max(min(d, 3), -1))
+        for s in fn.succs()[b]:
+            cur = depth_in.setdefault(s, set())
+            if not out <= cur:
+                cur |= out
+                work.append(s)
+    for b in sorted(depth_in):
+        if b in err:
+            continue
+        ds = depth_in[b]
+        if b in pops and any(d < 1 for d in ds):
+            problems.append("pop at bb%d can run with no scope pushed by this function" % b)
+        if b in pushes and any(d != 0 for d in ds):
+            problems.append("push at bb%d can run while a scope pushed by this function is still open" % b)
+        if fn.term(b)["k"] == "return" and ds != {0}:
+            problems.append("a non-error path returns with scope depth %s (a pushed scope is not popped, or popped twice)" % sorted(ds))
+    return depth_in, problems
